@@ -990,6 +990,20 @@ def check_C19(tier, seed, replay=None):
             p = subprocess.run([pigeon] + fl + [pth], stdout=subprocess.PIPE, stderr=subprocess.PIPE, env=P.ENV, timeout=120)
             outs.add(hashlib.sha256(p.stdout + b"|" + p.stderr).hexdigest())
             rcs.add(p.returncode)
+        # the file named by -o: the same bytes whether the file is new or already exists with other (longer) content
+        if p.returncode == 0:
+            of = pth + ".%s.go" % hashlib.sha1(" ".join(fl).encode()).hexdigest()[:6]
+            for stale in (None, p.stdout + b"\n// stale\n" * 400, b"x"):
+                if stale is None:
+                    if os.path.exists(of):
+                        os.remove(of)
+                else:
+                    with open(of, "wb") as f:
+                        f.write(stale)
+                q = subprocess.run([pigeon] + fl + ["-o", of, pth], stdout=subprocess.PIPE, stderr=subprocess.PIPE, env=P.ENV, timeout=120)
+                outs.add(hashlib.sha256(open(of, "rb").read() + q.stdout + b"|" + q.stderr).hexdigest())
+                rcs.add(q.returncode)
+            os.remove(of)
         return len(outs), sorted(rcs)
     res = P.parallel(runk, jobs, workers=16)
     nviol = 0
@@ -1073,7 +1087,9 @@ def check_C15(tier, seed, replay=None):
                 if tier != "quick" or ic:
                     for b in small:
                         classes.append(([], [a, b], [], inv, ic))
-            for u in C15_UCL:
+            # every Unicode class name the front-end accepts (its Basic Latin members come from range tables with strides,
+            # LatinOffset shortcuts, ...): alone, so that no other member covers the rune
+            for u in (unicode_class_names() if (not ic or tier != "quick") else C15_UCL):
                 classes.append(([], [], [u], inv, ic))
     # the witnesses of the repaired defect F15
     classes += [([], [0x5A, 0x61], [], False, True), ([], [0x40, 0x5A], [], False, True), ([0x212A], [], [], False, True),
@@ -1448,6 +1464,24 @@ def check_C13(tier, seed, replay=None):
                 valid.append(open(os.path.join(root, fn), "rb").read())
     for v in valid:
         texts.append(("valid", v))
+    # terminal sweeps: every printable ASCII character and the runes with unusual case orbits as the only member of a class
+    # (plain, i, ^, ^i, as a range), as a literal (plain, i), and every Unicode class name; one grammar per spelling,
+    # through every generation path (the table builders and the emitters enumerate members and case orbits)
+    from peg import cls_char, go_quote_rune
+    sweep_runes = list(range(33, 127)) + [0x212A, 0x17F, 0xDF, 0x130, 0x131, 0x3A3, 0x3C2, 0x1C5, 0x1E9E, 0xB5, 0x2163, 0xFFFD]
+    head0 = "{\npackage main\n}\n"
+
+    def sweep(fmt):
+        rules = ["T%d <- %s\n" % (i, fmt(r)) for i, r in enumerate(sweep_runes)]
+        return (head0 + "S <- " + " / ".join("T%d" % i for i in range(len(rules))) + "\n" + "".join(rules)).encode()
+    for sfx in ("", "i"):
+        texts.append(("sweep", sweep(lambda r: "[%s]%s" % (cls_char(r), sfx))))
+        texts.append(("sweep", sweep(lambda r: "[^%s]%s" % (cls_char(r), sfx))))
+        texts.append(("sweep", sweep(lambda r: "[%s-%s]%s" % (cls_char(r), cls_char(r + 1), sfx))))
+        texts.append(("sweep", sweep(lambda r: "\"%s\"%s" % (go_quote_rune(r), sfx))))
+        uc = unicode_class_names()
+        texts.append(("sweep", (head0 + "S <- " + " / ".join("U%d" % i for i in range(len(uc))) + "\n" +
+                                "".join("U%d <- [%s]%s\n" % (i, ("\\p" + u) if len(u) == 1 else ("\\p{" + u + "}"), sfx) for i, u in enumerate(uc))).encode()))
     nm = 1500 if tier == "quick" else 20000
     snippets = [b"{", b"}", b"<-", b"//{", b"%{", b"\"", b"'", b"[", b"]", b"(", b")", b"\\", b"/*", b"*/", b"//", b"\n", b";", b"i", b"\xff",
                 b"\\p{", b"\\x", b"\\u12", b"#{", b"&{", b"!{", b":", b"=", b"\xe2\x86\x90", b"^", b"-", b"*", b"?", b"+"]
@@ -1492,7 +1526,10 @@ def check_C13(tier, seed, replay=None):
             f.write(t)
         nf = 1 if kind == "bytes" else (4 if tier == "quick" else 8)
         for j in range(nf):
-            if kind == "leftrec":
+            if kind == "sweep":
+                fl = [["-optimize-basic-latin"], ["-optimize-basic-latin", "-optimize-parser"], ["-optimize-grammar", "-optimize-basic-latin"], [],
+                      ["-optimize-grammar", "-optimize-parser"], ["-support-left-recursion", "-optimize-basic-latin", "-nolint"], ["-optimize-parser"], ["-optimize-grammar"]][j]
+            elif kind == "leftrec":
                 fl = [["-support-left-recursion"], [], ["-support-left-recursion", "-optimize-parser"], ["-support-left-recursion", "-optimize-grammar"]][j % 4]
             elif kind == "bytes":
                 fl = [] if i % 3 else ["-optimize-grammar"]
@@ -1935,6 +1972,7 @@ def check_C18(tier, seed, replay=None):
     for pi, pk in enumerate(packs):
         fl = ["-support-left-recursion"] if "lr" in pk[0].tags else []
         variants.append(P.Variant(len(variants) + 1, "p%d" % pi, pk, fl))
+        variants.append(P.Variant(len(variants) + 1, "p%do" % pi, pk, fl + ["-optimize-parser"]))      # the other shape of the generated code
     G = 8 if tier == "quick" else 32
     rounds = 3 if tier == "quick" else 12
 
@@ -1948,12 +1986,17 @@ def check_C18(tier, seed, replay=None):
             for (ii, oi) in plan_for(g):
                 if oi in few:
                     continue
+                if v.optimized and (options[oi]["memo"] or options[oi]["debug"]):
+                    continue            # options that do not exist in an -optimize-parser parser
+                if not v.state_on and options[oi].get("initx", -1) >= 0:
+                    continue
                 plan.append([gx, ii, oi])
         g0 = v.groups[0]
         if not g0.maydiverge:
             rr = random.Random(seed + v.vi)
             ins0 = sorted({ii for (ii, oi) in plan_for(g0)}) or [0]
-            extra = [[0, rr.choice(ins0), rr.choice(few)] for _ in range(600)]
+            few_v = [oi for oi in few if not (v.optimized and options[oi]["memo"])]
+            extra = [[0, rr.choice(ins0), rr.choice(few_v)] for _ in range(600)]
             plan = extra[:300] + plan + extra[300:]
         solo = v.run(inputs, options, plan, timeout_ms=20000)
         solo_err = getattr(v, "last_stderr", "")
